@@ -52,7 +52,22 @@ Theorem C09_matched_strip_succeeds :
     drop_chars (literal_prefix_len pat) uri <> None.
 Proof. exact matched_strip_succeeds. Qed.
 
+(* the two combined: for every parsed request the routing rule gives to a proxy route (pattern a valid string) the target
+   receives the request unchanged except for the stripped prefix and the added X-Forwarded-For - no side condition left
+   but the well-formedness of the address text the address parser returns *)
+Theorem C09_server_upstream_sees_total :
+  forall ipp fs (c : config) p p' req ts m mt,
+    parsed_ok ipp p req -> server_response ipp fs c p req = SProxy ts m mt -> utf8 mt ->
+    ip_text_ok (a_origin (r_addr req)) ->
+    exists uri' b r', rewrite_uri mt (r_uri req) = Some uri' /\ forwarded_bytes ipp fs c p req = Some b /\
+      parse_request_flat ipp p' b = Ok (r', []) /\
+      r_method r' = r_method req /\ r_uri r' = uri' /\ r_query r' = r_query req /\ r_version r' = r_version req /\
+      r_content r' = r_content req /\
+      (forall n, hget_all n (r_headers r') = hget_all n (r_headers req ++ [(XFF, a_origin (r_addr req))])).
+Proof. exact server_upstream_sees_total. Qed.
+
 Print Assumptions C09_server_proxied_by_rule.
+Print Assumptions C09_server_upstream_sees_total.
 Print Assumptions C09_server_strip_never_panics.
 Print Assumptions C09_matched_strip_succeeds.
 Print Assumptions C09_server_upstream_sees.
